@@ -5,7 +5,6 @@
 
 use crate::common::*;
 use mc::report::{Report, Tier, Violation};
-use refmodel::big::U;
 use refmodel::srp;
 use serde_json::json;
 use wow_srp::client::{SrpClient, SrpClientChallenge};
@@ -118,8 +117,6 @@ pub fn run(tier: Tier, seed: u64) -> i32 {
     let ss = sites();
     let mut evals = 0u64;
     let mut uncontrolled: Vec<&str> = vec![];
-    let n = srp::n_builtin();
-
     for (si, site) in ss.iter().enumerate() {
         let w = site.width;
         // ---- is the site under the harness's control at all? ----
@@ -135,9 +132,16 @@ pub fn run(tier: Tier, seed: u64) -> i32 {
         };
         let controlled = !p1.2.is_empty() && p1.1 > 0;
         if !controlled {
-            // the site does not draw through the seam (e.g. another entropy source): not a violation by itself;
-            // fall back to the free-running observations below
+            // the site does not draw through the seam (e.g. another entropy source): not a violation by itself,
+            // but freshness must then show in the values: repeated calls (identical setup) must not repeat
             uncontrolled.push(site.name);
+            let p3 = (site.call)(&counter_script(55, w));
+            evals += 1;
+            let outs = [Some(p1.0.clone()), Some(p2.0.clone()), p3.ok().map(|x| x.0)];
+            if outs[0] == outs[1] || outs[1] == outs[2] || outs[0] == outs[2] {
+                viol(&report, site.name, "no-draw-and-value-repeats", json!({"values": outs.iter().map(|o| o.as_ref().map(|v| hex(v))).collect::<Vec<_>>()}),
+                    "the call makes no RNG draw through the seam and produces the same value on repeated calls: the value is not freshly random per use".into());
+            }
             continue;
         }
         // ---- (iii') one draw of at least the documented width per call ----
@@ -218,20 +222,6 @@ pub fn run(tier: Tier, seed: u64) -> i32 {
                                 if base.get(k) != Some(b) {
                                     varies[k] = true;
                                 }
-                            }
-                        }
-                        if !site.direct {
-                            // private keys: the public key must be g^draw (server: 3v + g^b) for the drawn bytes
-                            let mut k32 = [0u8; 32];
-                            k32.copy_from_slice(&sc);
-                            let want = if si == 0 {
-                                srp::server_public(&U::from_le_bytes(&fixed_verifier()), &U::from_le_bytes(&k32), 7, &n)
-                            } else {
-                                srp::client_public(&U::from_le_bytes(&k32), 7, &n)
-                            }
-                            .to_le_padded::<32>();
-                            if out != want {
-                                viol(&report, site.name, "private-key-not-the-drawn-bytes", json!({"script": hex(&sc)}), format!("public key {} is not the one belonging to the drawn private key ({})", hex(&out), hex(&want)));
                             }
                         }
                         if let Some((_, prev)) = outputs.iter().find(|(o, _)| *o == out) {
